@@ -1316,7 +1316,9 @@ static int cfg_parse_internal(cfg_t *cfg, int level, int force_state, cfg_opt_t 
 		}
 
 		if (tok == EOF) {
-			if (state != 0) {
+			/* also inside a section body that was not closed (the
+			 * parse of a default value ends at level 1, though) */
+			if (state != 0 || (level > 0 && !force_opt)) {
 				cfg_error(cfg, _("premature end of file"));
 				goto error;
 			}
